@@ -1,6 +1,5 @@
 use crate::delta::{DiffType, Source, State, StateMachine};
 use crate::handlers::diff_header::BINARY_FILE_SUFFIX;
-use crate::utils::path::relativize_path_maybe;
 
 impl StateMachine<'_> {
     #[inline]
@@ -30,12 +29,11 @@ impl StateMachine<'_> {
                 return Ok(true);
             }
 
+            // (the stored paths have been relativized already, if requested)
             if self.minus_file != "/dev/null" {
-                relativize_path_maybe(&mut self.minus_file, self.config);
                 self.minus_file.push_str(BINARY_FILE_SUFFIX);
             }
             if self.plus_file != "/dev/null" {
-                relativize_path_maybe(&mut self.plus_file, self.config);
                 self.plus_file.push_str(BINARY_FILE_SUFFIX);
             }
             return Ok(true);
